@@ -437,13 +437,15 @@ def random_op(rng, impl, ti, *, labels, malformed=0.1, typed=False, ops=None, di
         n = rng.choice(paths)
         cands = [q for q in allp if q[: len(n)] != n] if not mal else allp
         to = rng.choice(cands or [[]])
+        if rng.random() < 0.25:
+            to = n[:-1]          # re-positioned below its current parent
         op = {"op": "w.move", "t": ti, "n": n, "to": to}
         # candidate befores relative to the target once n is detached is subtle: use node/None/True/ints
         par = impl.node(ti, to)
         sibs = [i for i, c in enumerate(par.children) if (to + [i]) != n]
         c = [None, True, False, 0]
         if sibs:
-            c += [{"path": to + [rng.choice(sibs)]}, 1, len(sibs)]
+            c += [{"path": to + [rng.choice(sibs)]}, 1, len(sibs), -1, -2, len(sibs) - 1]
         if mal:
             c += [7, {"path": n}]
             if paths:
